@@ -172,7 +172,7 @@ func (rt *scenRT) body(t *f1t.T) {
 		return
 	}
 	if plan.InTimeStage {
-		t.Time("stage", func() { behave(t, plan.Behav) })
+		t.Time(plan.stageName(), func() { behave(t, plan.Behav) })
 	} else {
 		behave(t, plan.Behav)
 	}
